@@ -659,6 +659,27 @@ func c07Judge(c *C, set *pongo2.TemplateSet, ctx pongo2.Context, n *xnode, layou
 				c.Fail("short-circuit", d)
 				return false
 			}
+			// a leading unary plus is the identity, wherever a signed expression may stand
+			if lay == 0 && pos == 0 && xerr == nil && exp.status != stErr && hashStr(src)%6 == 0 {
+				forms := []string{"{{ +(" + text + ") }}", "{% set z = +(" + text + ") %}{{ z }}", "{{ (+(" + text + ")) }}"}
+				if n.op == "" && !strings.HasPrefix(text, "-") {
+					forms = append(forms, "{{ +"+text+" }}", "{% with z=+"+text+" %}{{ z }}{% endwith %}")
+				}
+				for _, ps := range forms {
+					ptpl, perr := set.FromString(ps)
+					if perr != nil {
+						c.Fail("compile-error", D{"tree": c07Full(n), "source": ps, "error": perr.Error()})
+						return false
+					}
+					pout, pxerr := ptpl.Execute(ctx)
+					c.Eval(1)
+					if pxerr != nil || pout != out {
+						c.Fail("wrong-value", D{"tree": c07Full(n), "source": ps, "output": pout, "error": errStr(pxerr), "expected": out, "why": "a leading + sign is the identity: the same as " + src})
+						return false
+					}
+				}
+				c.Cover("unary_plus_identity")
+			}
 			if lay == 0 && pos == 0 && c.WantSample() && n.op != "" && n.l.op != "" {
 				c.Sample(D{"tree": c07Full(n), "source": src, "output": out, "error": errStr(xerr)})
 			}
